@@ -90,6 +90,11 @@ def run(ctx):
         if r is None:
             noresult.append(c)
             continue
+        if c["id"].startswith("recorded:"):
+            # the observation stored in the replay file, evaluated again by today's model: information only,
+            # the verdict of a replay is what the code does NOW on the same input
+            ctx.say("REPLAY %s: recorded observation evaluates to check_case=%s (%s)" % (c["id"], r, CODES.get(r[0], "agrees with the model")))
+            continue
         if r[0] != 0:
             code = r[0]
         # the harness's own canary labels (independent of the Coq model): a secure canary in JSON / HTML
@@ -125,7 +130,7 @@ def run(ctx):
         distinct_nontrivial=fw.distinct_nontrivial(cases),
         rule="one evaluation = one call of clone.Secure / one clone entry point / one Render / one Register on generated types; "
              "distinct by hash of (type, abstracted input, abstracted observation); non-trivial = clone.Secure value with a reachable "
-             "secure-tagged leaf at depth >= 2, clone/render case whose plan carries secure-tagged leaves, registry case with a "
+             "secure-tagged field and nesting depth >= 2, clone/render case whose plan carries secure-tagged leaves, registry case with a "
              "secret-looking untagged field somewhere in the type",
         samples=[dict(id=c["id"], kind=c["kind"], input=c["input"], dist=c["dist"],
                       observed={k: v for k, v in (c["observed"] or {}).items() if k in ("result", "entry", "keep_state", "n_secret", "n_plain", "files", "registered", "offending")})
@@ -136,7 +141,8 @@ def run(ctx):
         distribution=dict(
             secure_depth=fw.histogram(c["dist"]["depth"] for c in sec),
             secure_constructor_pairs_above_secure_field=pairs,
-            secure_leaves_per_value=fw.histogram(min(c["dist"]["secure_leaves"], 12) for c in sec),
+            secure_canaries_per_value=fw.histogram(min(c["dist"]["secure_leaves"], 12) for c in sec),
+            reachable_secure_fields_per_value=fw.histogram(min(c["dist"].get("secure_fields", 0), 12) for c in sec),
             secure_result=fw.histogram(c["dist"]["result"] for c in sec),
             panics=sum(1 for c in cases if (c.get("observed") or {}).get("panic")),
             clone_entry=fw.histogram("%s keep_state=%s" % (c["dist"]["entry"], c["dist"]["keep_state"]) for c in cases if c["kind"].startswith("clone")),
@@ -150,13 +156,13 @@ def run(ctx):
     ), assumptions=[
         "the abstraction of Go values/types to GoVal.gv / Registry.ty terms and the canary labels are computed by the harness with reflect and strings only",
         "values are trees: no sharing/cycles; recursive types are not generated (reflect.StructOf cannot build them)",
-        "unexported fields and anything below a Go array are outside the property (documented exclusions of clone.Secure); "
-        "reflect.StructOf builds exported fields only, so the copy path's loss of unexported fields is modelled but not exercised",
+        "ordinary unexported fields and anything below a Go array are outside the property (documented exclusions of clone.Secure); "
+        "reflect.StructOf builds exported, non-embedded fields only: unexported fields, embedded structs / *structs of unexported "
+        "types (whose promoted fields ARE in scope) and named types are exercised by the hand-declared types of harness/cmd/c17/static.go",
         "the registry follows struct fields and pointers only: a secret-looking untagged field below a slice, map, array or interface "
         "is accepted by Register (modelled as is; reported as an observation, see DESIGN C17)",
         "HTML escaping, html/template and the JSON encoders are not modelled: rendered files are byte-searched",
-        "finding X5 (not covered by the theorem, outside sec_at): an exported secure-tagged field promoted through an embedded struct "
-        "whose type name is unexported is skipped by secureStruct (IsExported() of the embedded field is false) but serialised by both "
-        "JSON encoders; generated types have no embedded fields (reflect.StructOf)",
+        "embedded NON-struct values of unexported named types (type tokens []string; struct{ tokens }) are not entered by the code nor "
+        "serialised by the encoders: treated as ordinary unexported fields",
         "brunoga/deep MustCopy is the identity on tree values in the model; that the original is untouched is observed, not proved (C18 models locations)",
     ])
